@@ -1,22 +1,30 @@
-"""Ghost file-system model (scratch prototype): fs_has/fs_data arrays in st.ghost, file objects, effect points."""
+"""Ghost file-system model (DESIGN 5, C06): `fs_has` / `fs_data` maps in the ghost state, file objects, effect points.
+
+Model (assumed, stated in the evidence): a file's on-disk image at any instant is what was written so far, a write that fails
+leaves any prefix of its data behind; open(p, 'w'/'wb') creates or empties p, 'a'/'ab' creates or keeps, 'r+b' keeps (and fails when the
+file is missing); truncate(n) cuts or zero-extends; close commits nothing further; os.remove deletes.  Process kill, not power
+loss.  Every operation is an EFFECT POINT (the contract's crash invariant is asserted there, for the state before and after) and
+may fail with OSError -- at most one injected fault per execution (a second fault inside the rollback cannot be survived by any
+implementation)."""
 import z3
 from .core import *
 from . import lib
 
 
 class VFile(V):
-    def __init__(self, path, mode, gz=False): self.path = path; self.mode = mode; self.gz = gz
+    def __init__(self, path, mode, gz=False): self.path = path; self.mode = mode; self.gz = gz; self.ty = TAny()
 
 
 def fs(st):
     if 'fs_has' not in st.ghost:
         st.ghost['fs_has'] = z3.Array('fs_has0', z3.StringSort(), z3.BoolSort())
         st.ghost['fs_data'] = z3.Array('fs_data0', z3.StringSort(), z3.StringSort())
+        st.ghost['fs_done'] = z3.K(z3.StringSort(), z3.BoolVal(False))       # path -> an append to it was opened, written and closed without a fault
     return st.ghost['fs_has'], st.ghost['fs_data']
 
 
 def effect(ex, st, node, what):
-    """an effect point: the crash invariant must hold here; the operation may also fail with OSError"""
+    """an effect point: the crash invariant must hold here"""
     st.trace.append('L%s: effect %s' % (getattr(node, 'lineno', '?'), what))
     if ex.spec_mode: return
     for inv in ex.ctx.c.crash_invariant:
@@ -26,42 +34,66 @@ def effect(ex, st, node, what):
 
 def may_fail(ex, st, node, what, partial=None):
     """fork an OSError outcome (optionally after a partial effect applied by `partial(state)`)"""
+    if ex.spec_mode: return
     if st.ghost.get('faulted'): return          # single-fault scenarios: one injected I/O error per execution
-    s = st.fork(); s.ghost['faulted'] = True
+    s = st.fork(); s.ghost['faulted'] = True; s.ghost['fault_op'] = what
     if partial: partial(s)
     s.trace.append('L%s: OSError in %s' % (getattr(node, 'lineno', '?'), what))
     ex.ctx.raises.append(Outcome('raise', s, exc='OSError'))
 
 
 def close(ex, st, node, f, failing=True):
-    """leaving a `with open(...)` block: buffered data is committed (already modelled at write time); an effect point"""
+    """leaving a `with open(...)` block"""
+    if failing:
+        may_fail(ex, st, node, 'close')
+        if 'a' in f.mode and not st.ghost.get('faulted'):
+            st.ghost['fs_done'] = z3.Store(st.ghost['fs_done'], f.path, True)
     effect(ex, st, node, 'close')
-    if failing: may_fail(ex, st, node, 'close')
+
+
+def mode_of(mode):
+    if mode is None: return 'r'
+    if not z3.is_string_value(mode.term): raise ToolLimit('symbolic file mode')
+    return lib.zstr(mode.term)
 
 
 def b_open(ex, st, node, path, mode=None, **kw):
     mode = kw.get('mode', mode)
-    m = mode.term.as_string() if mode is not None else 'r'
+    m = mode_of(mode)
     has, data = fs(st)
-    may_fail(ex, st, node, 'open')
+    if isinstance(path, VOpt): path = ex.unopt(path, st, node)
+    may_fail(ex, st, node, 'open(%s)' % m)
     if 'w' in m:
         st.ghost['fs_has'] = z3.Store(has, path.term, True); st.ghost['fs_data'] = z3.Store(data, path.term, z3.StringVal(''))
     elif 'a' in m:
         st.ghost['fs_data'] = z3.Store(data, path.term, z3.If(z3.Select(has, path.term), z3.Select(data, path.term), z3.StringVal('')))
         st.ghost['fs_has'] = z3.Store(has, path.term, True)
+        st.ghost['fs_done'] = z3.Store(st.ghost['fs_done'], path.term, False)
+    else:
+        # 'r', 'rb', 'r+b': the file must exist
+        if not ex.spec_mode:
+            s = st.fork(); s.assume(z3.Not(z3.Select(has, path.term))); s.trace.append('L%s: open(%s) of a missing file' % (getattr(node, 'lineno', '?'), m))
+            ex.ctx.raises.append(Outcome('raise', s, exc='OSError'))
+            st.assume(z3.Select(has, path.term))
     effect(ex, st, node, 'open(%s)' % m)
     return VFile(path.term, m)
 
 
-def m_gzipfile(ex, st, node, path, mode=None, **kw):
+def m_gzipfile(ex, st, node, path=None, mode=None, **kw):
+    path = kw.pop('filename', path)
     f = b_open(ex, st, node, path, mode, **kw); f.gz = True; return f
+
+
+GZ = z3.Function('gzip_bytes', z3.StringSort(), z3.IntSort(), z3.StringSort())     # what a GzipFile puts on disk for one write (opaque)
 
 
 def file_method(ex, st, node, f, name, args):
     has, data = fs(st)
     cur = z3.Select(data, f.path)
     if name == 'write':
-        payload = args[0].term if not f.gz else z3.FreshConst(z3.StringSort(), 'gz')
+        a = args[0]
+        if isinstance(a, VOpt): a = ex.unopt(a, st, node)
+        payload = a.term if not f.gz else z3.FreshConst(z3.StringSort(), 'gz')
         def part(s):
             k = z3.FreshInt('k')
             s.assume(z3.And(k >= 0, k <= z3.Length(payload)))
@@ -80,6 +112,8 @@ def file_method(ex, st, node, f, name, args):
         st.ghost['fs_data'] = z3.Store(data, f.path, z3.If(n <= z3.Length(cur), z3.SubString(cur, 0, n), z3.Concat(cur, zeros)))
         effect(ex, st, node, 'truncate')
         return VNone()
+    if name in ('flush', 'close'):
+        return VNone()
     raise ToolLimit('file method %s' % name)
 
 
@@ -88,9 +122,10 @@ def m_exists(ex, st, node, path): return VBool(z3.Select(fs(st)[0], path.term))
 
 def m_getsize(ex, st, node, path):
     has, data = fs(st)
-    s = st.fork(); s.assume(z3.Not(z3.Select(has, path.term))); s.trace.append('getsize: missing file')
-    ex.ctx.raises.append(Outcome('raise', s, exc='OSError'))
-    st.assume(z3.Select(has, path.term))
+    if not ex.spec_mode:
+        s = st.fork(); s.assume(z3.Not(z3.Select(has, path.term))); s.trace.append('L%s: getsize of a missing file' % getattr(node, 'lineno', '?'))
+        ex.ctx.raises.append(Outcome('raise', s, exc='OSError'))
+        st.assume(z3.Select(has, path.term))
     return VInt(z3.Length(z3.Select(data, path.term)))
 
 
@@ -102,12 +137,46 @@ def m_remove(ex, st, node, path):
     return VNone()
 
 
+def m_truncate_file(ex, st, node, path):
+    """wpull.util.truncate_file: `with open(path, 'wb'): pass`"""
+    f = b_open(ex, st, node, path, const('wb'))
+    close(ex, st, node, f)
+    return VNone()
+
+
+def m_glob(ex, st, node, pattern):
+    """glob.glob(prefix + '*' + suffix): the existing paths that start with prefix and end with suffix (prefix free of glob
+    metacharacters and of directory-crossing matches: assumed).  Only emptiness of the result is modelled."""
+    has, data = fs(st)
+    t = pattern.term
+    if not (z3.is_app(t) and t.decl().kind() == z3.Z3_OP_SEQ_CONCAT): raise ToolLimit('glob pattern shape')
+    ch = t.children()
+    if not (z3.is_string_value(ch[-1]) and lib.zstr(ch[-1]).startswith('*') and '*' not in lib.zstr(ch[-1])[1:]): raise ToolLimit('glob pattern shape')
+    prefix = z3.Concat(*ch[:-1]) if len(ch) > 2 else ch[0]
+    suffix = z3.StringVal(lib.zstr(ch[-1])[1:])
+    L = fresh('globbed', TList(TStr()))
+    p = z3.String(lib.fid('gp'))
+    some = z3.Exists([p], z3.And(z3.Select(has, p), z3.PrefixOf(prefix, p), z3.SuffixOf(suffix, p), z3.Length(p) >= z3.Length(prefix) + z3.Length(suffix)))
+    st.assume((L.n > 0) == some)
+    i = z3.Int(lib.fid('gi'))
+    st.assume(z3.ForAll([i], z3.Implies(z3.And(0 <= i, i < L.n), z3.Select(has, z3.Select(L.arr, i)))))
+    return L
+
+
 lib.BUILTINS['open'] = b_open
 lib.MODFUNCS['gzip.GzipFile'] = m_gzipfile
 lib.MODFUNCS['os.path.exists'] = m_exists
 lib.MODFUNCS['os.path.getsize'] = m_getsize
 lib.MODFUNCS['os.remove'] = m_remove
+lib.MODFUNCS['glob.glob'] = m_glob
+lib.MODFUNCS['wpull.util.truncate_file'] = m_truncate_file
+lib.MODULES.update({'glob', 'shutil', 'wpull.version', 'logging'})
 SPECFUNS['content'] = lambda ex, st, p: VStr(z3.If(z3.Select(fs(st)[0], p.term), z3.Select(fs(st)[1], p.term), z3.StringVal('')), TBytes())
-SPECFUNS['startswith'] = lambda ex, st, a, b: VBool(z3.PrefixOf(b.term, a.term))
 SPECFUNS['fs_has'] = lambda ex, st, p: VBool(z3.Select(fs(st)[0], p.term))
 SPECFUNS['fs_data'] = lambda ex, st, p: VStr(z3.Select(fs(st)[1], p.term), TBytes())
+SPECFUNS['fs_text'] = lambda ex, st, p: VStr(z3.Select(fs(st)[1], p.term), TStr())
+SPECFUNS['append_done'] = lambda ex, st, p: VBool(z3.Select((fs(st), st.ghost['fs_done'])[1], p.term))
+SPECFUNS['fault_in'] = lambda ex, st, what: VBool(z3.BoolVal(str(st.ghost.get('fault_op', '')).startswith(lib.zstr(what.term))))
+SPECFUNS['no_journal_with_prefix'] = lambda ex, st, prefix: VBool(z3.Not(z3.Exists([z3.String('jp!0')], z3.And(
+    z3.Select(fs(st)[0], z3.String('jp!0')), z3.PrefixOf(prefix.term, z3.String('jp!0')), z3.SuffixOf(z3.StringVal('-wpullinc'), z3.String('jp!0')),
+    z3.Length(z3.String('jp!0')) >= z3.Length(prefix.term) + 9))))
